@@ -608,12 +608,15 @@ static void run_array(struct bench *b, int selidx, const uint32_t *probes, int n
 /* ------------------------------------------------------------------ */
 /* case table                                                           */
 /* ------------------------------------------------------------------ */
-enum { C_LARGE, C_EXH, C_TAPE, C_RANDOM, C_SWEEP };
+enum { C_LARGE, C_EXH, C_TAPE, C_RANDOM, C_SWEEP, C_DEEP };
 enum { PAT_SORTED, PAT_REVERSED, PAT_CONSTANT, PAT_TWO_RANDOM, PAT_TWO_ALT, PAT_ORGAN, PAT_VALLEY,
-       PAT_SAWTOOTH, PAT_ROT1, PAT_RANDOM_TIES, NPAT };
+       PAT_SAWTOOTH, PAT_ROT1, PAT_RANDOM_TIES,
+       /* nearly sorted with local disorder: every partitioning splits evenly (deepest balanced recursion) and the
+        * work left at the bottom is NOT already sorted */
+       PAT_PAIRS_SWAPPED, PAT_BLOCKS_REVERSED, PAT_LOCAL_SHUFFLE, NPAT };
 static const char *const patname[NPAT] = {
     "sorted", "reversed", "constant", "two-valued-random", "two-valued-alternating", "organ-pipe", "valley",
-    "sawtooth", "sorted-rotated-by-one", "random-many-ties"
+    "sawtooth", "sorted-rotated-by-one", "random-many-ties", "neighbours-swapped", "blocks-of-8-reversed", "shuffled-within-blocks-of-16"
 };
 struct cdef {
     unsigned char kind, sel, sizeidx, path, A, nlo, nhi, pat;
@@ -709,6 +712,20 @@ static void build_cases(void)
         memset(&c, 0, sizeof(c));
         c.kind = C_RANDOM; c.ridx = n;
         add_case(c);
+    }
+    /* deep: the biggest arrays first in the queue would be better, but they are few */
+    {
+        static const int dsel[] = { S_QUICK_R, S_QUICK_M, S_HEAP, S_DEFAULT, S_OORBIG, S_INLINE };
+        static const int dpat[] = { PAT_PAIRS_SWAPPED, PAT_BLOCKS_REVERSED, PAT_LOCAL_SHUFFLE, PAT_RANDOM_TIES, PAT_SORTED };
+        int a, b2;
+        for (a = 0; a < 6; a++) for (b2 = 0; b2 < 5; b2++) for (p = 0; p < 2; p++) {
+            if (dsel[a] == S_INLINE && p == P_ARRAY) continue;
+            if (!vrt_thorough && b2 >= 3 && ((a + b2 + p + (int)vrt_seed) & 3) != 0) continue;
+            memset(&c, 0, sizeof(c));
+            c.kind = C_DEEP; c.sel = dsel[a]; c.pat = dpat[b2]; c.path = p;
+            c.sizeidx = ((a + b2 + p) & 1) ? 3 : 6;       /* 8- and 16-byte records: 32-bit keys, unique tags */
+            add_case(c);
+        }
     }
     /* selector sweep: 16 selector values per case */
     for (n = 0; n < (NSWEEP + 15) / 16; n++) {
@@ -846,6 +863,9 @@ static void fill_pattern(struct bench *b, int pat, vrt_rng *g, uint32_t *keys)
         case PAT_VALLEY:     k = (uint64_t)(i < n / 2 ? n / 2 - i : i - n / 2) * 2 * K1 / (n + 2); break;
         case PAT_SAWTOOTH:   k = i % period; break;
         case PAT_ROT1:       k = (uint64_t)((i + 1) % n) * K1 / n; break;
+        case PAT_PAIRS_SWAPPED:   k = (uint64_t)((i ^ 1) < n ? (i ^ 1) : i) * K1 / n; break;
+        case PAT_BLOCKS_REVERSED: k = (uint64_t)(((i | 7) < n) ? ((i & ~(size_t)7) | (7 - (i & 7))) : i) * K1 / n; break;
+        case PAT_LOCAL_SHUFFLE:   k = (uint64_t)(((i | 15) < n) ? ((i & ~(size_t)15) | ((i * 7 + 3) & 15)) : i) * K1 / n; break;
         default:             k = vrt_below(g, nties); break;
         }
         if (k >= K1) k = K1 - 1;
@@ -905,6 +925,14 @@ static void run_large(const struct cdef *c, uint64_t idx)
     int big, quadratic = c->sel != S_QUICK_R && c->sel != S_HEAP
                     && c->pat != PAT_CONSTANT && c->pat != PAT_RANDOM_TIES && c->pat != PAT_TWO_RANDOM && c->pat != PAT_TWO_ALT;
     vrt_rng_seed(&g, vrt_seed, 0xC11A000 + idx);
+    if (c->kind == C_DEEP) {
+        /* arrays of 2^19 .. 2^21 records: recursion/iteration depth, pending-work tables, counters past 2^16 .. 2^20 */
+        const size_t n = (vrt_thorough ? ((size_t)1 << 21) : ((size_t)3 << 18)) + 37 + vrt_below(&g, 5);
+        vrt_case_note("deep pattern=%s sel=%s(%ld) size=%d path=%s n=%zu", patname[c->pat], selname[c->sel], selval[c->sel], SIZES[c->sizeidx], pathname[c->path], n);
+        run_large_n(c, idx, n, &g, F_SEARCH | F_SIG);
+        VRT_COUNT("arrays.deep");
+        return;
+    }
     nbig = quadratic ? large_quad : large_big;
     /* quick tier: the biggest lengths run in one case out of eight, rotating with the seed */
     vrt_case_note("large pattern=%s sel=%s(%ld) size=%d path=%s nmax=%zu%s", patname[c->pat], selname[c->sel],
@@ -1023,7 +1051,7 @@ static void run_case(uint64_t idx)
     const struct cdef *c = &cases[idx];
     uint64_t t0 = draws_tape, p0 = draws_prng;
     switch (c->kind) {
-    case C_LARGE:  run_large(c, idx); break;
+    case C_LARGE: case C_DEEP: run_large(c, idx); break;
     case C_EXH:    run_exh(c, idx); break;
     case C_TAPE:   run_tape(c, idx); break;
     case C_SWEEP:  run_sweep(c, idx); break;
@@ -1052,7 +1080,8 @@ static const char *const required[] = {
     "sort.selector-values-swept.negative", "sort.selector-values-swept.above-last-named",
     "arrays.element-size.01", "arrays.element-size.02", "arrays.element-size.04", "arrays.element-size.08",
     "arrays.element-size.03", "arrays.element-size.05", "arrays.element-size.16", "arrays.element-size.24",
-    "arrays.exhaustive.array-path", "arrays.exhaustive.vector-path", "arrays.large", "arrays.random",
+    "arrays.exhaustive.array-path", "arrays.exhaustive.vector-path", "arrays.large", "arrays.random", "arrays.deep",
+    "arrays.large.neighbours-swapped", "arrays.large.blocks-of-8-reversed", "arrays.large.shuffled-within-blocks-of-16",
     "arrays.large.sorted", "arrays.large.reversed", "arrays.large.constant", "arrays.large.two-valued-random",
     "arrays.large.organ-pipe", "arrays.large.sawtooth", "arrays.large.random-many-ties",
     "tape.pivot-tapes-enumerated", "rand.draws.from-tape", "rand.draws.from-fair-prng",
